@@ -21,6 +21,9 @@ func runC07(p *Program, r *Report) {
 	ruleR073(p, r)
 	r.Rule("R07.4", "E2+E4", 8, "root confinement: every os/ioutil call of the directory back end that takes a path gets one derived from osPath (or a constant file name joined to the root), and osPath's success return is control-dependent on an effective containment predicate (filepath.Rel to the root followed by a '..' test, filepath.IsLocal, or a HasPrefix test against the root); comparing a Join result with its own Clean is vacuous")
 	ruleR074(p, r)
+	r.Rule("R07.6", "E2", 2, "signatures are compared whole: every constant-time comparison that authenticates stored data compares the complete stored tag with the complete computed tag (no operand is a re-slice whose bounds are computed at run time), the verifier answers 'valid' only on the equal edge, and the computed tag covers the data and the context it was given")
+	ruleWholeTagCompare(p, r, "R07.6", []string{"keystore/v2/keystore/crypto", "keystore/v2/keystore/signature"}, 1)
+	ruleR076(p, r)
 	r.Rule("R07.5", "E4", 6, "permission discipline: every file/directory creation in the two keystores uses the 0600/0700 constants (public key files 0644)")
 	ruleR075(p, r)
 	r.Note("R07.2 (owner/purpose context on every key-encryption call) is decided as R02.4 in property C02; its obligations are not duplicated here")
@@ -665,4 +668,102 @@ func r071Put(p *Program, r *Report, fn *ssa.Function, in ssa.Instruction, data s
 		}
 		r.Check(good, "R07.1", fnName(sfn), "returns notary.Sign output", p.Pos(sfn.Pos()), "success return carries the signed container", "signKeyRing's success return is not the notary's signed output")
 	}
+}
+
+// ruleWholeTagCompare: operands of subtle.ConstantTimeCompare / hmac.Equal in pkgs are not run-time re-slices.
+func ruleWholeTagCompare(p *Program, r *Report, rule string, pkgs []string, floor int) {
+	in := map[string]bool{}
+	for _, k := range pkgs {
+		in[acraMod+"/"+k] = true
+	}
+	n := 0
+	for _, fn := range p.srcFns {
+		if !in[fnPkgPath(fn)] {
+			continue
+		}
+		for _, cs := range callsIn(fn) {
+			if cs.Callee == nil || cs.Callee.Pkg() == nil {
+				continue
+			}
+			full := cs.Callee.Pkg().Path() + "." + cs.Callee.Name()
+			if full != "crypto/subtle.ConstantTimeCompare" && full != "crypto/hmac.Equal" {
+				continue
+			}
+			n++
+			bad := ""
+			for _, a := range cs.Instr.Common().Args {
+				for v := range backClosure(a) {
+					sl, ok := v.(*ssa.Slice)
+					if !ok {
+						continue
+					}
+					for _, bnd := range []ssa.Value{sl.Low, sl.High} {
+						if bnd == nil {
+							continue
+						}
+						if _, isC := intConst(bnd); !isC {
+							bad = "an operand is cut to a length computed at run time"
+						}
+					}
+				}
+			}
+			r.Check(bad == "", rule, fnName(fn), "tag comparison over whole values", p.Pos(cs.Instr.Pos()), "operands are not run-time re-slices", bad+": a truncated (or empty) stored tag compares equal to the prefix of the right one")
+		}
+	}
+	if n < floor {
+		r.Bad(rule, strings.Join(pkgs, ","), "tag comparisons", "-", "fewer authenticating comparisons found than confirmed by reading")
+	}
+}
+
+func ruleR076(p *Program, r *Report) {
+	spec := "keystore/v2/keystore/crypto.(*SignSha256).Verify"
+	fn := p.Func(spec)
+	if fn == nil || fn.Blocks == nil {
+		r.Anchor("R07.6", spec)
+		return
+	}
+	sig, data, ctx := paramByName(fn, "signature"), paramByName(fn, "data"), paramByName(fn, "context")
+	ok := false
+	why := "the result is not the outcome of comparing the stored with the computed signature"
+	for _, ret := range returnsOf(fn) {
+		bo, isBo := retValue(ret, 0).(*ssa.BinOp)
+		if !isBo || bo.Op.String() != "==" {
+			continue
+		}
+		c, isC := intConst(bo.Y)
+		call, isCall := bo.X.(*ssa.Call)
+		if !isC || c != 1 || !isCall {
+			continue
+		}
+		cl := map[ssa.Value]bool{}
+		for _, a := range call.Common().Args {
+			for v := range backClosure(a) {
+				cl[v] = true
+			}
+		}
+		signCalled := false
+		for v := range cl {
+			if sc, isS := v.(*ssa.Call); isS {
+				if co := calleeOfCommon(sc.Common()); co != nil && co.Name() == "Sign" {
+					a := sc.Common().Args
+					if len(a) == 3 && a[1] == ssa.Value(data) && a[2] == ssa.Value(ctx) {
+						signCalled = true
+					}
+				}
+			}
+		}
+		if !cl[sig] {
+			why = "the stored signature does not take part in the comparison"
+		} else if !signCalled {
+			why = "the expected signature is not Sign(data, context)"
+		} else {
+			ok = true
+		}
+	}
+	r.Check(ok, "R07.6", fnName(fn), "valid only when Sign(data, context) equals the stored signature", p.Pos(fn.Pos()), "return ConstantTimeCompare(Sign(data, context), signature) == 1", why)
+}
+
+func init() {
+	mut("C07", "signature compared over the common prefix only", "keystore/v2/keystore/crypto/signature.go", "	return subtle.ConstantTimeCompare(expected, signature) == 1", "	n := len(signature)\n	if n > len(expected) {\n		n = len(expected)\n	}\n	return subtle.ConstantTimeCompare(expected[:n], signature[:n]) == 1", "R07.6", "whole values")
+	mut("C07", "signature verified without the context", "keystore/v2/keystore/crypto/signature.go", "	expected := s.Sign(data, context)\n	// Use constant-time", "	expected := s.Sign(data, nil)\n	// Use constant-time", "R07.6", "Sign(data, context)")
 }
